@@ -82,14 +82,12 @@ Strict(r) == /\ PairwiseUnrelated(r.subs)
              /\ r.any \/ ( /\ PairwiseUnrelated(r.objs)
                            /\ \A s \in r.subs, o \in r.objs : ~Related(s.name, o.name) )
 
-\* The one corner left open (DESIGN section 5, guard 1): with subject
-\* "sub modules of P", is an import between a strict descendant of P and P
-\* itself an import of "something else"?
-DontCare(D, I, r) == {e \in I : \E s \in r.subs : /\ s.kind = "sub"
-                                                  /\ From(r, e) \in D[s]
-                                                  /\ To(r, e) = s.name}
-
-Allowed(D, I, r) == {Outcome(D, I, r), Outcome(D, I \ DontCare(D, I, r), r)}
+\* "Sub modules of P" are P's STRICT descendants: P itself is outside the subject.  An import between a sub module of
+\* P and P is therefore an import of (by) "something else" - in both directions.  (Until round 5 this corner was left
+\* open: the library counted P as "something else" when P imports one of its sub modules, but not when a sub module
+\* imports P.  C01 states the set reading, the be-imported-by search documents it, and the import search was repaired
+\* to follow it - DESIGN section 14.)
+Allowed(D, I, r) == {Outcome(D, I, r)}
 
 (***************************************************************************)
 (* The documentation's table written out literally, one formula per shape, *)
